@@ -126,7 +126,7 @@ def window_cases(tier):
 def gen(rng, tier):
     yield from chain_cases(tier)
     yield from window_cases(tier)
-    for _ in range(400 if tier == "quick" else 8000):
+    for _ in range(400 if tier == "quick" else 2500):
         yield gen_case(rng)
 
 
